@@ -7,6 +7,7 @@ package c06
 
 import (
 	"bytes"
+	"fmt"
 	"math/big"
 	"math/rand"
 
@@ -88,13 +89,29 @@ type Step struct {
 	// DelayMs: the answer is sent that much later (it then arrives after
 	// faster answers to concurrent calls for the same block were handled).
 	DelayMs int `json:",omitempty"`
+	// HangUp: after the answer was written completely, the peer closes its
+	// connection: 1 = at once, n > 1 = n milliseconds later (0 = it stays).
+	HangUp int `json:",omitempty"`
+	// Before: that many other valid blocks of the chain (which the client
+	// must ignore) are sent in front of an invalid block.
+	Before int `json:",omitempty"`
 }
 
 func (s Step) String() string {
+	t := string(s.K)
 	if s.Sub != "" {
-		return string(s.K) + ":" + string(s.Sub)
+		t += ":" + string(s.Sub)
 	}
-	return string(s.K)
+	if s.Before > 0 {
+		t += fmt.Sprintf("+%dothers", s.Before)
+	}
+	switch {
+	case s.HangUp == 1:
+		t += "+hangup"
+	case s.HangUp > 1:
+		t += fmt.Sprintf("+hangup-%dms", s.HangUp)
+	}
+	return t
 }
 
 // isBanStep reports whether the step is planned to carry an invalid block
